@@ -28,6 +28,11 @@ def check(ctx):
     a = ctx.a
     from .c02 import wire_premise
     wire_premise(ctx, "W0", "the bytes written are not a sequence of well-formed client-to-broker packets: a strict broker loses framing or drops the connection")
+    # a packet identifier of 0 is not a well-formed PUBLISH (QoS>0) / SUBSCRIBE / UNSUBSCRIBE [MQTT-2.3.1-1]: the range clause of C17
+    from .common import run_premise
+    run_premise(ctx, "C17", "W0", "identifier-range", "packet identifiers on the wire are in 1..65535",
+                "a PUBLISH (QoS>0), SUBSCRIBE or UNSUBSCRIBE goes out with an identifier the specification forbids: not a well-formed packet",
+                only=lambda f: f.rule in ("ID-RANGE", "ID-SOURCE"))
     ty = types(a)
     nw = 0
     sites = set()
